@@ -12,7 +12,7 @@ PROP = dict(
          'non-trivial = n >= 2 and (>= 2 tasking threads on a threaded backend, or nested); distinct by hash of the case x backend',
     floor=dict(quick=600, thorough=6000),
     parallel=2,
-    confirm_replays=5,
+    confirm_replays=12,
     assumptions=TRUST + ['schedules inside TBB / libgomp / enkiTS are sampled (thread counts, cost profiles, nesting), not enumerated',
                          'counts >= 2^31 are explored for parallel_in_blocks_of block boundaries only (not per index)'],
     bins=[rc('C01_parallel_tbb', 'harness/C01_parallel.cpp', 'tbb-asan', flags=FL),
